@@ -50,7 +50,19 @@ def impl():
     from anyio.streams.buffered import BufferedByteReceiveStream
     from anyio.streams.text import TextReceiveStream, TextSendStream, TextStream
 
-    class FakeByteStream(ByteReceiveStream):
+    class MidFeed:
+        """While a receive call of the wrapper is parked in our receive(), "another task" calls feed_data(): the data
+        queued in `midfeeds` (one entry per fetch) is fed to the owning BufferedByteReceiveStream before we answer."""
+
+        owner = None
+
+        def wait(self):
+            if self.midfeeds:
+                f = self.midfeeds.pop(0)
+                self.owner.feed_data(f)
+                self.log.append(("f", f))
+
+    class FakeByteStream(MidFeed, ByteReceiveStream):
         """Holds the chunk list; receive(max_bytes) hands out the first min(max_bytes, |chunk|) bytes of the next chunk."""
 
         def __init__(self, chunks, log):
@@ -58,8 +70,10 @@ def impl():
             self.log = log
             self.bad_max = []
             self.splits = 0
+            self.midfeeds = []
 
         async def receive(self, max_bytes: int = 65536) -> bytes:
+            self.wait()
             if max_bytes < 1:
                 self.bad_max.append(max_bytes)
             if not self.chunks:
@@ -71,25 +85,28 @@ def impl():
                 self.splits += 1
             else:
                 self.chunks.pop(0)
-            self.log.append(piece)
+            self.log.append(("p", piece))
             return piece
 
         async def aclose(self) -> None:
             pass
 
-    class FakeObjectStream(ObjectReceiveStream):
-        """An object stream of bytes: whole chunks."""
+    class FakeObjectStream(MidFeed, ObjectReceiveStream):
+        """An object stream of bytes: whole items, possibly empty ones."""
 
         def __init__(self, chunks, log):
             self.chunks = [bytes(c) for c in chunks]
             self.log = log
             self.bad_max = []
+            self.splits = 0
+            self.midfeeds = []
 
         async def receive(self) -> bytes:
+            self.wait()
             if not self.chunks:
                 raise EndOfStream
             c = self.chunks.pop(0)
-            self.log.append(c)
+            self.log.append(("p", c))
             return c
 
         async def aclose(self) -> None:
@@ -126,7 +143,7 @@ def impl():
     return _impl
 
 
-# ops of the buffered model: ("r", n) ("x", n) ("u", delim, m) ("f", data)
+# ops of the buffered model: ("r", n) ("x", n) ("u", delim, m) ("u", delim, m, feeds-during-the-call) ("f", data)
 def buf_flat(kind, chunks, ops):
     out = [kind, len(chunks)]
     for c in chunks:
@@ -138,8 +155,16 @@ def buf_flat(kind, chunks, ops):
         elif o[0] == "x":
             out += [1, o[1]]
         elif o[0] == "u":
-            out += [2, o[2], len(o[1])]
-            out.extend(o[1])
+            if len(o) > 3 and o[3]:
+                out += [4, o[2], len(o[1])]
+                out.extend(o[1])
+                out.append(len(o[3]))
+                for f in o[3]:
+                    out.append(len(f))
+                    out.extend(f)
+            else:
+                out += [2, o[2], len(o[1])]
+                out.extend(o[1])
         else:
             out += [3, len(o[1])]
             out.extend(o[1])
@@ -161,9 +186,10 @@ class BufRun:
     def execute(self):
         I = impl()
         EndOfStream, IncompleteRead, DelimiterNotFound = I["EndOfStream"], I["IncompleteRead"], I["DelimiterNotFound"]
-        pieces = []                      # what the wrapped stream handed out, in order
-        wrapped = (I["FakeObjectStream"] if self.kind else I["FakeByteStream"])(self.chunks, pieces)
+        events = []                      # ("p", piece handed out by the wrapped stream) / ("f", fed during a wait)
+        wrapped = (I["FakeObjectStream"] if self.kind else I["FakeByteStream"])(self.chunks, events)
         s = I["Buffered"](wrapped)
+        wrapped.owner = s
         outs = self.outs
         mon = self.mon
         flags = self.flags
@@ -172,7 +198,7 @@ class BufRun:
         whole = b"".join(bytes(c) for c in self.chunks)
         for idx, o in enumerate(self.ops):
             buf0 = s.buffer
-            np0 = len(pieces)
+            np0 = len(events)
             rest0 = b"".join(wrapped.chunks)
             logical0 = buf0 + rest0
             t = o[0]
@@ -183,7 +209,12 @@ class BufRun:
                 elif t == "x":
                     val = run_coro(s.receive_exactly(o[1]))
                 elif t == "u":
-                    val = run_coro(s.receive_until(bytes(o[1]), o[2]))
+                    wrapped.midfeeds = [bytes(f) for f in o[3]] if len(o) > 3 else []
+                    try:
+                        val = run_coro(s.receive_until(bytes(o[1]), o[2]))
+                    finally:
+                        unused_feeds = len(wrapped.midfeeds)
+                        wrapped.midfeeds = []
                 else:
                     s.feed_data(bytes(o[1]))
                     code = 5
@@ -209,16 +240,20 @@ class BufRun:
             outs.extend(buf1)
 
             # ---------------- monitors (history only, no model) ----------------
-            got = b"".join(pieces[np0:])
+            evs = events[np0:]
+            pieces = [b for k, b in evs if k == "p"]
+            got = b"".join(pieces)                              # read from the wrapped stream during the call
+            arr_call = b"".join(b for _, b in evs)              # everything that arrived during the call, in order
+            midfed = any(k == "f" and b for k, b in evs)
             if t == "f":
                 arrived += bytes(o[1])
-                if np0 != len(pieces):
+                if evs:
                     mon.append(f"op {idx}: feed_data read from the wrapped stream")
                 if buf0:
                     flags.add("feed_behind_buffered_data")
                 flags.add("feed")
             else:
-                arrived += got
+                arrived += arr_call
             delim = bytes(o[1]) if t == "u" else b""
             if code == 0:
                 consumed += val + delim
@@ -226,42 +261,51 @@ class BufRun:
             if consumed + buf1 != arrived:
                 mon.append(f"op {idx} {o}: conservation broken: handed out+delimiters {consumed!r} + buffer {buf1!r} "
                            f"!= fed+received {arrived!r}")
-            logical1 = buf1 + b"".join(wrapped.chunks)
-            if t != "f" and code in (0,) and logical0 != val + delim + logical1:
+            rest1 = b"".join(wrapped.chunks)
+            logical1 = buf1 + rest1
+            if t != "f" and code == 0 and not midfed and logical0 != val + delim + logical1:
                 mon.append(f"op {idx} {o}: stream {logical0!r} != result {val!r} + delimiter {delim!r} + rest {logical1!r}")
-            # M5 a failing call consumes nothing
-            if code in (1, 2, 3, 4, 8) and logical1 != logical0:
-                mon.append(f"op {idx} {o}: failing call changed the stream: {logical0!r} -> {logical1!r}")
-            if code in (1, 2, 3, 4) and not buf1.startswith(buf0):
-                mon.append(f"op {idx} {o}: failing call dropped buffered bytes: {buf0!r} -> {buf1!r}")
+            # M5 a failing call consumes nothing: what arrived meanwhile is in the buffer, in order, behind what was there
+            if code in (1, 2, 3, 4, 8):
+                if buf1 != buf0 + arr_call:
+                    mon.append(f"op {idx} {o}: failing call: buffer {buf0!r} + arrived {arr_call!r} became {buf1!r}")
+                if not midfed and logical1 != logical0:
+                    mon.append(f"op {idx} {o}: failing call changed the stream: {logical0!r} -> {logical1!r}")
             if t == "r":
                 n = o[1]
                 if n >= 1:
                     if code == 0:
                         if not (1 <= len(val) <= n):
-                            if not buf0 and len(pieces) == np0 + 1 and pieces[-1] == b"" and val == b"":
-                                flags.add("empty_chunk_of_a_contract_violating_wrapped_stream_passed_on")
+                            if not self.kind and not buf0 and pieces == [b""] and val == b"":
+                                flags.add("empty_chunk_of_a_contract_violating_byte_stream_passed_on")
                             else:
-                                mon.append(f"op {idx}: receive({n}) returned {len(val)} bytes")
-                        if buf0 and (val != buf0[:n] or np0 != len(pieces)):
+                                mon.append(f"op {idx}: receive({n}) returned {len(val)} bytes"
+                                           + (" (empty item of the object stream passed on)" if b"" in pieces else ""))
+                        if buf0 and (val != buf0[:n] or evs):
                             mon.append(f"op {idx}: receive({n}) with buffered data {buf0!r} returned {val!r} / touched the wrapped stream")
-                        if not buf0 and self.kind and len(pieces[-1]) > n:
+                        if not buf0 and self.kind and pieces and len(pieces[-1]) > n:
                             flags.add("object_surplus_kept")
+                        if self.kind and b"" in pieces:
+                            flags.add("empty_items_skipped_by_receive")
                     elif code == 1:
                         if logical0:
                             mon.append(f"op {idx}: receive({n}) raised EndOfStream with {logical0!r} still available")
                         flags.add("end_of_stream")
+                        if self.kind and b"" in pieces:
+                            flags.add("empty_items_then_end_of_stream")
                     else:
                         mon.append(f"op {idx}: receive({n}) failed with code {code}")
-                elif code == 0:
-                    mon.append(f"op {idx}: receive({n}) returned {val!r} for a non-positive max_bytes")
+                else:
+                    if code == 0:
+                        mon.append(f"op {idx}: receive({n}) returned {val!r} for a non-positive max_bytes")
+                    flags.add("receive_non_positive_max_bytes")
             elif t == "x":
                 n = o[1]
                 if n >= 0:
                     if code == 0:
                         if len(val) != n:
                             mon.append(f"op {idx}: receive_exactly({n}) returned {len(val)} bytes")
-                        if len(pieces) - np0 > 1:
+                        if len(pieces) > 1:
                             flags.add("exactly_several_reads")
                     elif code == 2:
                         if len(logical0) >= n:
@@ -273,45 +317,73 @@ class BufRun:
                         mon.append(f"op {idx}: receive_exactly({n}) failed with code {code}")
                     if code == 0 and len(logical0) < n:
                         mon.append(f"op {idx}: receive_exactly({n}) succeeded with only {len(logical0)} bytes in the stream")
+                else:
+                    # "exactly n bytes or IncompleteRead": no byte string has a negative length, the call must fail
+                    if code == 0:
+                        mon.append(f"op {idx}: receive_exactly({n}) returned {val!r} and consumed it "
+                                   f"(buffer {buf0!r} -> {buf1!r}) for a negative count")
+                    flags.add("exactly_negative_count")
             elif t == "u" and len(delim) >= 1:
                 m = o[2]
-                first = logical0.find(delim)
+                # the stream in arrival order: what was buffered, what arrived during the call, what is still to come
+                view = buf0 + arr_call + (rest1 if not unused_feeds else b"")
+                first = view.find(delim)
+                if midfed:
+                    flags.add("feed_data_during_receive_until")
                 if code == 0:
                     if (val + delim).find(delim) != len(val):
                         mon.append(f"op {idx}: receive_until({delim!r}) result {val!r} contains the delimiter")
                     if first != len(val):
-                        mon.append(f"op {idx}: receive_until({delim!r}) returned {val!r} but the first delimiter of {logical0!r} is at {first}")
-                    if np0 != len(pieces) and len(buf0) + 1 - len(delim) > 0 and first < len(buf0) and first + len(delim) > len(buf0):
+                        mon.append(f"op {idx}: receive_until({delim!r}) returned {val!r} but the first delimiter of {view!r} is at {first}")
+                    if pieces and len(buf0) + 1 - len(delim) > 0 and first < len(buf0) and first + len(delim) > len(buf0):
                         flags.add("delimiter_straddles_buffer_and_new_chunk")
+                    if midfed and evs and first < len(buf0) + sum(len(b) for k, b in evs[:next((i for i, e in enumerate(evs) if e[0] == "p"), 0)]):
+                        flags.add("delimiter_inside_data_fed_during_the_wait")
                     if len(val) + len(delim) > max(m, 0):
                         flags.add("delimiter_found_beyond_max_bytes")
                 elif code == 3:
                     if 0 <= first and first + len(delim) <= m:
-                        mon.append(f"op {idx}: DelimiterNotFound({m}) although {delim!r} occurs at {first} in {logical0!r}")
+                        mon.append(f"op {idx}: DelimiterNotFound({m}) although {delim!r} occurs at {first} in {view!r}")
                     flags.add("delimiter_not_found")
                     if got:
                         flags.add("failed_call_keeps_received_bytes_in_buffer")
                 elif code == 2:
-                    if first >= 0:
-                        mon.append(f"op {idx}: IncompleteRead although {delim!r} occurs at {first} in {logical0!r}")
+                    # data fed during the very last wait (the one that met the end of the stream) is not searched
+                    before_last = evs[:-1] if evs and evs[-1][0] == "f" else evs
+                    seen = buf0 + b"".join(b for _, b in before_last)
+                    if seen.find(delim) >= 0:
+                        mon.append(f"op {idx}: IncompleteRead although {delim!r} occurs in {seen!r}")
+                    if rest1:
+                        mon.append(f"op {idx}: IncompleteRead with {rest1!r} still in the wrapped stream")
                     flags.add("until_incomplete")
                 else:
                     mon.append(f"op {idx}: receive_until failed with code {code}")
+                if m <= 0:
+                    flags.add("until_non_positive_max_bytes")
                 # documented bound ("maximum number of bytes that will be read before raising"): the wrapped stream is
                 # asked for more only while fewer than max_bytes bytes are buffered
                 have = len(buf0)
-                for p in pieces[np0:]:
+                i = 0
+                while i < len(evs):
                     if have >= m:
                         mon.append(f"op {idx}: receive_until(max_bytes={m}) read on with {have} bytes buffered and no delimiter")
                         break
-                    have += len(p)
+                    if evs[i][0] == "f":
+                        have += len(evs[i][1])
+                        i += 1
+                        if i < len(evs) and evs[i][0] == "p":
+                            have += len(evs[i][1])
+                            i += 1
+                    else:
+                        have += len(evs[i][1])
+                        i += 1
             if not self.kind and wrapped.splits:
                 flags.add("byte_stream_split_by_max_bytes")
                 wrapped.splits = 0
             if wrapped.bad_max:
                 mon.append(f"op {idx} {o}: wrapped byte stream asked for max_bytes={wrapped.bad_max}")
                 wrapped.bad_max.clear()
-        if whole != b"".join(pieces) + b"".join(wrapped.chunks):
+        if whole != b"".join(b for k, b in events if k == "p") + b"".join(wrapped.chunks):
             mon.append("wrapped stream bookkeeping broken")
 
     def flat(self):
@@ -320,7 +392,9 @@ class BufRun:
     def replay(self):
         return {"kind": "buffered", "wrapped": "object stream of bytes" if self.kind else "byte stream",
                 "chunks": [bytes(c).decode("latin-1") for c in self.chunks],
-                "ops": [list(o[:1]) + [bytes(x).decode("latin-1") if isinstance(x, (list, tuple, bytes)) else x for x in o[1:]]
+                "ops": [list(o[:1]) + [([bytes(f).decode("latin-1") for f in x] if i == 2 and o[0] == "u" else
+                                         bytes(x).decode("latin-1")) if isinstance(x, (list, tuple, bytes)) else x
+                                        for i, x in enumerate(o[1:])]
                         for o in self.ops],
                 "flat_case": self.flat(), "impl_observations": self.outs}
 
@@ -331,7 +405,9 @@ def buf_from_replay(c):
     chunks = [list(x.encode("latin-1")) if isinstance(x, str) else list(x) for x in c["chunks"]]
     ops = []
     for o in c["ops"]:
-        o = [list(x.encode("latin-1")) if isinstance(x, str) and i > 0 else x for i, x in enumerate(o)]
+        o = [list(x.encode("latin-1")) if isinstance(x, str) and i > 0 else
+             ([list(f.encode("latin-1")) if isinstance(f, str) else list(f) for f in x] if isinstance(x, list) and i == 3 else x)
+             for i, x in enumerate(o)]
         ops.append(tuple(o))
     return BufRun(kind, chunks, ops)
 
@@ -370,28 +446,58 @@ def chunkings(data):
         yield out
 
 
-def buf_vocab(maxn):
+def buf_vocab(maxn, extra=False):
     ops = [("r", n) for n in range(1, maxn + 1)]
-    ops += [("x", n) for n in range(0, maxn + 1)]
+    ops += [("x", n) for n in range(-1 if True else 0, maxn + 1)]          # -1: must be refused, nothing consumed
     for d in ([D1], [D1, D2]):
         for m in range(1, maxn + 2):
             ops.append(("u", d, m))
     ops += [("f", [A]), ("f", [D1]), ("f", [D2, B])]
+    if extra:
+        ops += [("r", 0), ("u", [D1], 0), ("u", [D1, D2], -1), ("x", -2)]
     return ops
 
 
-def buf_exhaustive(maxlen, maxn, seqlen):
-    """alphabet^<=maxlen x all chunkings x both kinds x all op sequences of length 1..seqlen over the vocabulary."""
-    vocab = buf_vocab(maxn)
+def with_empty_items(ch):
+    """the chunking itself, and the chunking with one empty item inserted at every position (object streams only)"""
+    yield ch
+    for i in range(len(ch) + 1):
+        yield ch[:i] + [[]] + ch[i:]
+
+
+def buf_exhaustive(maxlen, maxn, seqlen, empties_upto=2, extra=False):
+    """alphabet^<=maxlen x all chunkings (object kind: also with an empty item at any position, for streams up to
+    empties_upto bytes) x both kinds x all op sequences of length 1..seqlen over the vocabulary."""
+    vocab = buf_vocab(maxn, extra)
     seqs = []
     for k in range(1, seqlen + 1):
         seqs += [list(p) for p in itertools.product(vocab, repeat=k)]
     for ln in range(0, maxlen + 1):
         for data in itertools.product((A, B, D1, D2), repeat=ln):
             for ch in chunkings(list(data)):
-                for kind in (0, 1):
+                for ops in seqs:
+                    yield 0, ch, ops
+                for ch2 in (with_empty_items(ch) if ln <= empties_upto else [ch]):
                     for ops in seqs:
-                        yield kind, ch, ops
+                        yield 1, ch2, ops
+
+
+MID_FEEDS = [[], [A], [D1], [D2], [A, D1, B], [D1, D2]]
+
+
+def buf_midfeed_exhaustive(maxlen):
+    """receive_until with feed_data during its waits: streams up to maxlen x all chunkings x both kinds x
+    delimiters ';' ';\n' x max_bytes 3, 9 x every list of 1 or 2 feeds over MID_FEEDS, alone or followed by one call"""
+    feeds = [[f] for f in MID_FEEDS] + [[f, g] for f in MID_FEEDS for g in MID_FEEDS]
+    firsts = [("u", d, m, fl) for d in ([D1], [D1, D2]) for m in (3, 9) for fl in feeds]
+    seconds = [None, ("r", 3), ("u", [D1], 9), ("x", 1)]
+    for ln in range(0, maxlen + 1):
+        for data in itertools.product((A, B, D1, D2), repeat=ln):
+            for ch in chunkings(list(data)):
+                for kind in (0, 1):
+                    for f in firsts:
+                        for g in seconds:
+                            yield kind, ch, [f] if g is None else [f, g]
 
 
 def buf_random(rng, n):
@@ -406,8 +512,11 @@ def buf_random(rng, n):
             k = rng.choice([1, 1, 2, 3, 5, 8])
             chunks.append(data[i:i + k])
             i += k
-        if rng.random() < 0.08:
-            chunks.insert(rng.randrange(len(chunks) + 1), [])       # contract-violating empty chunk (correspondence only)
+        if kind == 1 and rng.random() < 0.35:
+            for _ in range(rng.choice([1, 1, 2, 3])):               # empty items of an object stream are legitimate
+                chunks.insert(rng.randrange(len(chunks) + 1), [])
+        elif rng.random() < 0.04:
+            chunks.insert(rng.randrange(len(chunks) + 1), [])       # contract-violating byte stream (correspondence only)
         dl = rng.choice([1, 1, 2, 2, 3, 0])
         d = [rng.choice((D1, D2)) for _ in range(dl)] if rng.random() < 0.7 else [rng.choice(alphabet) for _ in range(dl)]
         ops = []
@@ -418,7 +527,14 @@ def buf_random(rng, n):
             elif r < 0.55:
                 ops.append(("x", rng.choice([0, 1, 2, 3, 4, 6, 9, 20, -1, -2])))
             elif r < 0.9:
-                ops.append(("u", d, rng.choice([0, 1, 2, 3, 4, 5, 8, 12, 40, -1])))
+                m = rng.choice([0, 1, 2, 3, 4, 5, 8, 12, 40, -1])
+                if rng.random() < 0.4:
+                    pool = list(alphabet) + d
+                    feeds = [[rng.choice(pool) for _ in range(rng.choice([0, 1, 2, 3, 5]))]
+                             for _ in range(rng.choice([1, 2, 3]))]
+                    ops.append(("u", d, m, feeds))
+                else:
+                    ops.append(("u", d, m))
             else:
                 ops.append(("f", [rng.choice(alphabet) for _ in range(rng.choice([0, 1, 2, 4]))]))
         yield kind, chunks, ops
@@ -721,7 +837,9 @@ def text_cases(rng, tier):
 # check
 # ----------------------------------------------------------------------------------------------------------------
 
-BUF_NEED = ["delimiter_straddles_buffer_and_new_chunk", "object_surplus_kept", "byte_stream_split_by_max_bytes",
+BUF_NEED = ["feed_data_during_receive_until", "delimiter_inside_data_fed_during_the_wait", "empty_items_skipped_by_receive",
+            "empty_items_then_end_of_stream", "exactly_negative_count", "receive_non_positive_max_bytes",
+            "until_non_positive_max_bytes", "delimiter_straddles_buffer_and_new_chunk", "object_surplus_kept", "byte_stream_split_by_max_bytes",
             "incomplete_read", "delimiter_not_found", "until_incomplete", "end_of_stream", "feed_behind_buffered_data",
             "exactly_several_reads", "failed_call_keeps_received_bytes_in_buffer", "delimiter_found_beyond_max_bytes"]
 TEXT_NEED = ["chunking_checked", "split_input", "roundtrip_checked", "roundtrip_rechunked_checked", "decode_error",
@@ -812,7 +930,7 @@ def check(tier: str) -> int:
     rep = core.Report("C16", tier)
     rep.assumptions = [a for a in core.TRUSTED_BASE_COMMON if "asyncio Task" not in a and "SchedLoop" not in a] + [
         "correspondence harness (Python): fake transports, canonicalisation, generators, monitors - differential testing, bounds but does not remove the model/code gap",
-        "model pure/Buffered.v hand-written from streams/buffered.py:30-154; the wrapped stream is data (chunk list): a byte stream hands out min(max_bytes,|chunk|) bytes of its next chunk, an object stream whole chunks; it never blocks; aclose() not modelled",
+        "model pure/Buffered.v hand-written from streams/buffered.py:30-172 (HEAD incl. fixes F27-F29); the wrapped stream is data (chunk list): a byte stream hands out min(max_bytes,|chunk|) bytes of its next chunk, an object stream whole items (possibly empty); concurrency = feed_data() by another task during the waits of receive_until (one feed per fetch); a second concurrent reader and aclose() are not modelled",
         "model pure/Text.v hand-written from streams/text.py:33-108; CPython 3.12 codecs (strict) are a modelled environment: utf-8/latin-1 automata proved against the encoders in Coq, utf-16/utf-32 (+BOM handling, -le/-be) validated by this harness against `codecs` only; native byte order little endian",
     ]
     if sys.byteorder != "little":
@@ -842,17 +960,29 @@ def check(tier: str) -> int:
             sb.add(buf_from_replay(c))
             n_corpus += 1
     bounds = []
-    plan = [(3, 2, 2)] if quick else [(4, 3, 2), (2, 2, 3)]
+    # (max stream length, max n, max op-sequence length, empty items for streams up to, extra invalid-argument ops)
+    plan = [(3, 2, 2, 2, False)] if quick else [(4, 3, 2, 3, False), (2, 2, 3, 2, True)]
     t_ex0 = time.time()
     n_ex = 0
-    for (maxlen, maxn, seqlen) in plan:
-        for kind, ch, ops in buf_exhaustive(maxlen, maxn, seqlen):
+    for (maxlen, maxn, seqlen, emp, extra) in plan:
+        for kind, ch, ops in buf_exhaustive(maxlen, maxn, seqlen, emp, extra):
             sb.add(BufRun(kind, ch, ops))
             n_ex += 1
         bounds.append({"alphabet": "a b ; \\n", "stream_length_upto": maxlen, "chunkings": "all",
+                       "empty_items": f"object stream: one empty item at every position, streams up to {emp} bytes",
                        "wrapped": ["byte stream", "object stream"],
-                       "op_vocabulary": f"receive 1..{maxn}, receive_exactly 0..{maxn}, receive_until(';' | ';\\n', 1..{maxn + 1}), feed_data(a | ; | \\nb)",
+                       "op_vocabulary": f"receive 1..{maxn}, receive_exactly -1..{maxn}, receive_until(';' | ';\\n', 1..{maxn + 1}), feed_data(a | ; | \\nb)"
+                                        + (", receive(0), receive_until(max_bytes 0 | -1), receive_exactly(-2)" if extra else ""),
                        "op_sequences": f"all of length 1..{seqlen}"})
+    mid_len = 2 if quick else 3
+    for kind, ch, ops in buf_midfeed_exhaustive(mid_len):
+        sb.add(BufRun(kind, ch, ops))
+        n_ex += 1
+    bounds.append({"family": "feed_data during the waits of receive_until", "stream_length_upto": mid_len,
+                   "chunkings": "all", "wrapped": ["byte stream", "object stream"],
+                   "delimiters": "; and ;\\n", "max_bytes": "3, 9",
+                   "feeds": "every list of 1 or 2 feeds over '' a ; \\n a;b ;\\n (one per fetch)",
+                   "then": "nothing | receive(3) | receive_until(';', 9) | receive_exactly(1)"})
     t_ex = time.time() - t_ex0
     n_rand = 6000 if quick else 150000
     for kind, ch, ops in buf_random(rng, n_rand):
@@ -930,7 +1060,9 @@ def check(tier: str) -> int:
         "disagreements_checked": nd,
         "distinct_nontrivial": len(sb.nontrivial) + len(st.nontrivial),
         "rule": "buffered: every byte string over {a,b,;,\\n} up to the bound x every chunking x both wrapped-stream kinds x every op "
-                "sequence over the vocabulary (exhaustive part), plus random longer streams / chunk sizes / byte values / "
+                "sequence over the vocabulary, object streams also with an empty item at every position, receive_until with every "
+                "list of 1-2 feed_data calls made while it waits (the fake wrapped stream feeds the REAL wrapper before it answers), "
+                "negative / zero counts and max_bytes (exhaustive part), plus random longer streams / chunk sizes / byte values / "
                 "n, max_bytes incl. 0 and negative, delimiters of length 0-3, empty chunks, one 70 kB chunk; text: every string "
                 "over boundary code points up to the bound sent through the real TextSendStream and every re-chunking of the "
                 "bytes through the real TextReceiveStream, every byte sequence over boundary bytes up to the bound (valid and "
